@@ -54,7 +54,7 @@ shape("_NSIntegralState", {
 })
 
 shape("NestedSampler", {
-    "live_points": LP_ARR,
+    "live_points": f"Opt({LP_ARR})",      # None after finalise
     "nlive": "Int",
     "logLmin": "Real",
     "logLmax": "Real",
@@ -118,4 +118,13 @@ _S["ImportanceNestedSampler"].attrs.update({
     "plot_training_data": "Bool",
     "training_time": "Any",
     "proposal": "Obj(ISProposalAbs)",
+})
+
+_S["ImportanceNestedSampler"].attrs.update({
+    "_stop_any": "Bool",
+    "criterion": "List(Real)",
+    "tolerance": "List(Real)",
+    "min_iteration": "Int",
+    "max_iteration": "Real",       # an int or np.inf
+    "finalised": "Bool",
 })
